@@ -172,7 +172,7 @@ def run(tier, seed, replay=None):
     res = Result("C03", tier, seed, RULE)
     rng = rng_for(seed, "C03")
     projs = []
-    reps = 2 if tier == "quick" else 12
+    reps = 2 if tier == "quick" else 40
     for n in (2, 3, 4):
         locs = LOCS[:n]
         for inh in all_maps(locs):
@@ -192,7 +192,7 @@ def run(tier, seed, replay=None):
             check(res, p, o)
     negative_cases(res, seed)
     # end-to-end: the generated accessors must read the same locale
-    sample = rng.sample(projs, 2 if tier == "quick" else 12)
+    sample = rng.sample(projs, 2 if tier == "quick" else 24)
     crates = []
     for i, p in enumerate(sample):
         c = e2e.ProbeCrate("c03_%d" % i, p)
